@@ -1542,6 +1542,8 @@ def emit_call(em, fc, f, I, lab, edge):
                 if isinstance(nv, VInt) and nv.v % sz == 0 and nv.v // sz <= 8 and not mv:
                     for k in range(nv.v // sz):
                         out.append('((%s*)%s)[%d] = ((%s*)%s)[%d];' % (ct, A[0], k, ct, A[1], k))
+                elif isinstance(nv, VInt):
+                    if nv.v: out.append('%s((void*)%s, (void*)%s, %dULL);' % ('memmove' if mv else 'memcpy', A[0], A[1], nv.v))
                 else:
                     hn = em.mem_helper(ct)
                     out.append('__ll2c_%s_%s((%s*)%s, (%s*)%s, (uint64_t)%s);' % ('memmove' if mv else 'memcpy', hn, ct, A[0], ct, A[1], A[2]))
@@ -1554,9 +1556,16 @@ def emit_call(em, fc, f, I, lab, edge):
             td = ptr_elem_type(em, fc, args[0][1])
             rt_ = em.resolve(td) if td is not None else None
             if rt_ is not None and isinstance(rt_, (TInt, TPtr)) and isinstance(args[1][1], VInt) and args[1][1].v == 0:
-                ct = em.ctype(td)
-                hn = em.mem_helper(ct, zero=True)
-                out.append('__ll2c_memzero_%s((%s*)%s, (uint64_t)%s);' % (hn, ct, A[0], A[2]))
+                ct = em.ctype(td); sz = em.size_align(td)[0]
+                nv = args[2][1]
+                if isinstance(nv, VInt) and nv.v % sz == 0 and nv.v // sz <= 32:
+                    for k in range(nv.v // sz):
+                        out.append('((%s*)%s)[%d] = 0;' % (ct, A[0], k))
+                elif isinstance(nv, VInt):
+                    out.append('memset((void*)%s, 0, %dULL);' % (A[0], nv.v))
+                else:
+                    hn = em.mem_helper(ct, zero=True)
+                    out.append('__ll2c_memzero_%s((%s*)%s, (uint64_t)%s);' % (hn, ct, A[0], A[2]))
             elif isinstance(args[2][1], VInt):
                 if args[2][1].v: out.append('memset((void*)%s, %s, %dULL);' % (A[0], A[1], args[2][1].v))
             else:
